@@ -766,8 +766,10 @@ def pncbo(op, ifile1, ifile2, coordkeys=None, verbose=0):
             propd['units'] = '(%s) %s (%s)' % (unit1, op, unit2)
             # masks of the operands (and of masked-array domain errors)
             # are kept; non-finite results are masked in addition
-            outval = np.ma.masked_invalid(
-                eval('in1var[...] %s in2var[...]' % op))
+            outval = eval('in1var[...] %s in2var[...]' % op)
+            # (numpy.ma.masked_invalid fails for masked scalar variables)
+            outval = np.ma.masked_where(
+                ~np.isfinite(np.ma.getdata(outval)), outval)
             fill_value = -999
             try:
                 np.asarray(fill_value, dtype=outval.dtype)
